@@ -97,7 +97,7 @@ def drains_until_empty(ctx, r, key, fnp, params, recv_call, other_exits=()):
                    why='the receivers are registered edge-triggered: what is left in the queue when the handler returns is not announced again')
 
 
-def setters_and_ctors(ctx, r, adt, consts=None):
+def setters_and_ctors(ctx, r, adt, consts=None, names=None):
     """Builder setters and constructor helpers of a public argument struct: every function of `adt` that returns one by value
     puts each parameter named like a field into that field and into no other; a setter keeps the rest of `self`; the fields
     a constructor fills with constants are tabled in `consts` ({fn name: {field: shown value}})."""
@@ -113,10 +113,13 @@ def setters_and_ctors(ctx, r, adt, consts=None):
             continue
         if S.norm_path(fn_.get('output') or '') != adt:
             continue
+        if names is not None and p_.split('::')[-1] not in names:
+            continue  # API added later is not what the property talks about
         prms = [(q.get('name') if q.get('k') == 'Bind' else None) for q in fn_.get('params', [])]
         if None in prms:
             continue
-        ev = ctx.evaluator(0)
+        # one constructor may be written in terms of another of the same type: read through those (and through new helpers)
+        ev = ctx.evaluator(3, inline_filter=lambda q_: ctx.new_helper(q_) or (q_ in ctx.fns and S.norm_path(ctx.fns[q_].get('impl_self') or '') == adt and not ctx.fns[q_].get('impl_trait')))
         try:
             t = ev.run_fn(p_, [('var', nm, -(i + 1)) for i, nm in enumerate(prms)])
         except Exception as e:  # noqa
